@@ -203,6 +203,48 @@ func (pb *predBuilder) valueFormula(v ssa.Value, depth int) formula {
 				return mkOr(a, b)
 			}
 		}
+	case *ssa.Call:
+		// a predicate over one integral argument written as a function of the repository (kindNilable(k), isScalar(k)):
+		// its formula over the argument is the disjunction, over its returns, of (the return is reached && its result)
+		if callee := staticCallee(x); callee != nil && len(callee.Blocks) > 0 && len(callee.Params) == 1 && len(x.Call.Args) == 1 &&
+			isIntegral(callee.Params[0].Type()) && callee.Signature.Results().Len() == 1 && depth < 6 {
+			if bt, ok := callee.Signature.Results().At(0).Type().Underlying().(*types.Basic); ok && bt.Info()&types.IsBoolean != 0 {
+				pure := true
+				for _, ins := range allInstrs(callee) {
+					switch ins.(type) {
+					case *ssa.Call, *ssa.Store, *ssa.Go, *ssa.Defer, *ssa.Send, *ssa.MapUpdate, *ssa.Panic:
+						pure = false
+					}
+				}
+				if pure {
+					argKey := pb.key(x.Call.Args[0])
+					if c, isC := stripConv(x.Call.Args[0]).(*ssa.Const); isC && c.Value != nil {
+						argKey = ""
+					}
+					if argKey != "" {
+						prm := callee.Params[0]
+						sub := &predBuilder{name: func(v ssa.Value) string {
+							if v == ssa.Value(prm) {
+								return argKey
+							}
+							if sc := stripConv(v); sc == ssa.Value(prm) {
+								return argKey
+							}
+							return ""
+						}}
+						var f formula = fConst{false}
+						for _, r := range returnsOf(callee) {
+							rv := retVals(r)
+							if len(rv) != 1 {
+								return fAtom{pb.key(v)}
+							}
+							f = mkOr(f, mkAnd(sub.pathCond(callee.Blocks[0], r.Block()), sub.valueFormula(rv[0], depth+1)))
+						}
+						return f
+					}
+				}
+			}
+		}
 	case *ssa.Phi:
 		// boolean phi (from a && / || used as a value): OR over incoming edges of
 		// (edge taken, relative to the phi block's immediate dominator) && value
